@@ -339,10 +339,11 @@ impl Plugin for FileTransferPlugin {
                                 recvd_payload: 0,
                                 file_data: Vec::with_capacity(if keep_data {
                                     // the announced sizes can be corrupt/invalid (would overflow or lead to
-                                    // huge allocations) so we limit the upfront allocation. The vec grows if needed.
+                                    // huge allocations, even more with many announcements) so we limit the
+                                    // upfront allocation. The vec grows if needed.
                                     std::cmp::min(
                                         nr_packages.saturating_mul(buffer_size),
-                                        16 * 1024 * 1024,
+                                        64 * 1024,
                                     ) as usize
                                 } else {
                                     0
